@@ -40,3 +40,62 @@ Definition participants (ws : list N) (S : list vote) : nat :=
 (* the domain of the paper definitions: both vote sets tolerant (equivocating weight within
    total - threshold) *)
 Definition in_domain (ws : list N) (V C : list vote) : bool := tolerant ws V && tolerant ws C.
+
+(* ------------------------------------------------------------------------------------------
+   The part of Round.update that is NOT the paper's definition outside the domain: the
+   "possible to precommit" accounting computed with Go's wrapping uint64 arithmetic
+   (toleratedEquivocations - currentEquivocations wraps when the precommit equivocators outweigh
+   the tolerance; the Rust original saturates).  [possible_go] mirrors round.go literally;
+   Proofs.possible_go_spec shows it is RoundSpec.possible whenever the precommits are tolerant and
+   the total weight fits 64 bits.  The correspondence check uses it on prefixes with tolerant
+   prevotes and intolerant precommits. *)
+Local Open Scope N_scope.
+Definition w64 (x : N) : N := N.land x 0xFFFFFFFFFFFFFFFF.
+(* a - b on uint64 *)
+Definition sub64 (a b : N) : N := w64 (a + 0x10000000000000000 - w64 b).
+Definition add64 (a b : N) : N := w64 (a + b).
+
+Definition possible_go (t : tree) (ws : list N) (C : list vote) (b : block) : bool :=
+  let n := total ws in
+  let th := threshold ws in
+  let tolerated := sub64 n th in
+  let cur_eq := eq_weight ws C in
+  let additional := sub64 tolerated cur_eq in
+  let cur := cur_weight ws C in
+  let remaining := sub64 n cur in
+  let pf := weight t ws C b in
+  let poss_eq := if sub64 cur pf <=? additional then sub64 cur pf else additional in
+  th <=? add64 (add64 pf remaining) poss_eq.
+
+(* finalized / estimate / completable of Round.update as functions of the current prevote ghost
+   [g] (Round.prevoteGhost), the precommits and the "possible" predicate in use *)
+Definition state_at (t : tree) (ws : list N) (poss : list vote -> block -> bool)
+    (g : option block) (C : list vote) : option block * option block * bool :=
+  match g with
+  | None => (None, None, false)
+  | Some g =>
+    if threshold ws <=? cur_weight ws C then
+      let fin := find_anc t (has_supermajority t ws C) g in
+      match find_anc t (poss C) g with
+      | None => (fin, None, false)
+      | Some e => (fin, Some e, negb (e =? g)%nat || negb (existsb (poss C) (children t g)))
+      end
+    else (None, Some g, false)
+  end.
+
+(* the Go round state when the prevotes are tolerant: the paper's ghost, and update() with the
+   wrapping accounting *)
+Definition round_state_go (t : tree) (ws : list N) (V C : list vote) : round_state :=
+  let '(f, e, c) := state_at t ws (possible_go t ws) (ghost t ws V) C in
+  mkRS (ghost t ws V) f e c (ghost t ws C).
+
+Definition opt_eqb (a b : option block) : bool :=
+  match a, b with
+  | None, None => true
+  | Some x, Some y => (x =? y)%nat
+  | _, _ => false
+  end.
+Definition rs_eqb (a b : round_state) : bool :=
+  opt_eqb (rs_ghost a) (rs_ghost b) && opt_eqb (rs_finalized a) (rs_finalized b) &&
+  opt_eqb (rs_estimate a) (rs_estimate b) && Bool.eqb (rs_completable a) (rs_completable b) &&
+  opt_eqb (rs_pc_ghost a) (rs_pc_ghost b).
